@@ -166,6 +166,14 @@ class SimClock:
         return self.today
 
 
+class EmptyLookingClock(SimClock):
+    """A clock that is also a container (of the dates pinned so far, say)
+    and happens to be empty: callable, returns a date - and is falsy."""
+
+    def __len__(self):
+        return 0
+
+
 def install_date_shim(clock: SimClock):
     """Replace the name `date` in quantity.money (this world only) by a shim
     whose `today()` reads the simulated clock.
